@@ -295,7 +295,7 @@ type gen struct {
 func (g *gen) id(kind string) string {
 	g.n++
 	g.stats[kind]++
-	return fmt.Sprintf("%s%d", kind[:2], g.n)
+	return fmt.Sprintf("%s%d", kind, g.n)
 }
 
 // emit: request for the model (withModel = false: implementation-only case), implementation answer, direct
@@ -566,6 +566,24 @@ func mustRefuse(impl string) string {
 	return "bad:damaged packet accepted"
 }
 
+// A flipped bit that only disturbs padding bytes of the plaintext leaves msg_key's input intact
+// (MTProto 1.0 does not authenticate the padding): e.g. a flip in a last cipher block that holds
+// one body byte and 15 padding bytes survives with probability 1/256.  Such a packet is accepted
+// with exactly the sealed message - conforming ("never a different message"); it is counted apart.
+func refuseOrSame(f fields, mk []byte) func(string) string {
+	return func(impl string) string {
+		switch {
+		case impl == "P":
+			return "bad:panic"
+		case impl == "E":
+			return "ok"
+		case impl == f.show()+","+vc.Hex(mk):
+			return "ok:same-message"
+		}
+		return "bad:damaged packet accepted with a different message"
+	}
+}
+
 func noPanic(impl string) string {
 	if impl == "P" {
 		return "bad:panic"
@@ -613,7 +631,7 @@ func (g *gen) c04Base(r *vc.Rng, key []byte, n int, tier string, modelBudget *in
 		if b < 64 {
 			cost = 1
 		}
-		g.c04Open("flip", kh, key, d, mustRefuse, fmt.Sprintf("bitflip bit=%d of %d-byte packet", b, len(pkt)), use(cost))
+		g.c04Open("flip", kh, key, d, refuseOrSame(f, pkt[8:24]), fmt.Sprintf("bitflip bit=%d of %d-byte packet", b, len(pkt)), use(cost))
 	}
 	// every truncation length, including shorter than the 24-byte header
 	for l := 0; l < len(pkt); l++ {
